@@ -1,6 +1,6 @@
 #!/bin/bash
 # Runs the pinned suite in /repo (hooks OFF) and compares with /root/.vp/BASELINE.json stable_pass.
-cd "${VERIF_REPO:-/repo}" || exit 2
+cd "${VH_REPO:-/repo}" || exit 2
 export CGO_CFLAGS=-w GOPROXY=off GOSUMDB=off GOTOOLCHAIN=local
 go test -json -vet=off -count=1 -timeout 25m ./... 2>/dev/null > /tmp/baseline.$$.json
 python3 - /tmp/baseline.$$.json <<'PY'
